@@ -278,7 +278,7 @@ def family_of(addr_body):
 def w_literal(exe, domains, src):
     part = new_part()
     cnt = part["counters"]
-    lines = [driver.A_line(b"x@" + d, sections=3, tlds=3) for d in domains]
+    lines = [driver.A_line(b"x@" + d, sections=7, tlds=3) for d in domains]
     recs, crashes = driver.run_lines_resilient(exe, lines)
     for idx, sig, err in crashes:
         d = domains[idx] if idx >= 0 else b""
@@ -286,6 +286,15 @@ def w_literal(exe, domains, src):
     for d, r in zip(domains, recs):
         if r is None:
             continue
+        # public per-part validators on the bare address text: is_ipaddr is by definition is_ipv6 for texts with a colon, else is_ipv4
+        lit = r["dom"][10] if r.get("dom") else None
+        if lit is not None and d.endswith(b"]"):
+            inner = d[1:-1]
+            cnt["is_ipaddr.compared"] += 1
+            want = lit[2] if b":" in inner else lit[1]
+            if lit[0] != want:
+                part["viol"].append(("is_ipaddr/disagrees-with-%s" % ("is_ipv6" if b":" in inner else "is_ipv4"),
+                                     {"address_text": core.b2s(inner)}, {"is_ipaddr": lit[0], "is_ipv4": lit[1], "is_ipv6": lit[2], "source": src}))
         verdict, fam, why = OD.literal_verdict(d)
         cnt["verdict." + verdict] += 1
         for mi, m in enumerate(MODES):
